@@ -11,7 +11,7 @@ Decides one property on /repo's current working tree:
 import importlib, json, os, random, sys
 
 sys.path.insert(0, os.path.dirname(os.path.abspath(__file__)))
-import core  # noqa: E402
+import core, canon  # noqa: E402
 
 
 class Ctx:
@@ -66,6 +66,17 @@ def correspond(ctx, mod):
         k = op.split('\t', 1)[0]
         res.corr_by_op[k] = res.corr_by_op.get(k, 0) + 1
         oc = a.split(' ', 1)[0]
+        if k == 'convert' and oc == 'ok':
+            # input distribution of the converter stream: unit type x outcome (service, or the kind of error hit)
+            try:
+                f = op.split('\t')
+                tys = [core.unhx(x).rsplit('.', 1)[-1] for x in f[3::2]]
+                order = [int(x) for x in f[2].split(',')] if f[2] else [0]
+                for i, r in zip(order, canon.parse_convert(a)):
+                    oc2 = 'convert:' + (tys[i] if i < len(tys) else '?') + ':' + (r[0] if r[0] != 'err' else 'err ' + str(r[1]))
+                    res.corr_by_outcome[oc2] = res.corr_by_outcome.get(oc2, 0) + 1
+            except Exception:
+                pass
         res.corr_by_outcome[oc] = res.corr_by_outcome.get(oc, 0) + 1
         if op not in seen:
             seen.add(op)
